@@ -565,35 +565,27 @@ def r6_bscale(ctx, prog, fi=None, rule="C20-R6"):
     ctx.floor(rule, n, 2, "fits.open sites of fits_tools")
 
 
-def r7_fresh(ctx, prog):
-    """each call works on objects of its own: nothing on the way is memoised"""
+def r7_fresh(ctx, prog, rule="C20-R7"):
+    """each call works on objects of its own: nothing on the way is memoised
+    (shared by C20-R7 and C15-R8)"""
     from .. import callgraph
-    from ..core import PKG
-    ctx.rule("C20-R7", "no state is shared between calls: load_image_band "
-             "adjusts the header it returns IN PLACE, so every function it "
-             "obtains data or header from (expand, load_file_or_hdu, ...) "
-             "must build fresh objects on every call -- no lru_cache / cache "
-             "decorator, no module-level store written through `global`")
-    g = callgraph.build(prog)
-    root = PKG + ".fits_tools.load_image_band"
-    reach = callgraph.reachable(g, [root])
+    from ..core import PKG, shared_state
+    ctx.rule(rule, "no state is shared between calls: load_image_band "
+             "adjusts the header it returns IN PLACE, and compress / expand "
+             "work on whatever file they are given, so every function of "
+             "fits_tools builds fresh objects on every call -- no lru_cache / "
+             "cache decorator, no `global`, no module-level or "
+             "default-argument container that is stored into")
     n = 0
-    for q in sorted(reach):
-        fi = prog.functions[q]
+    for q, fi in sorted(prog.functions.items()):
         if not fi.module.endswith("fits_tools"):
             continue
         n += 1
-        memo = [norm(d) for d in fi.node.decorator_list
-                if any(k in norm(d) for k in ("lru_cache", "cache",
-                                              "memoize", "memoise"))]
-        glob = [norm(x) for x in walk_no_nested(fi.node)
-                if isinstance(x, (ast.Global, ast.Nonlocal))]
-        ctx.check("C20-R7", fi, "%s builds fresh objects" % fi.short,
-                  not memo and not glob,
-                  "%s is memoised / keeps module state (%s): the header that "
-                  "load_image_band shrinks for one band is handed out again "
-                  "for the next, so later bands are cut from a header that "
-                  "no longer describes the full image" %
-                  (fi.short, memo + glob), node=fi.node)
-    ctx.floor("C20-R7", n, 2, "fits_tools functions reachable from "
-              "load_image_band")
+        st = shared_state(prog, fi)
+        ctx.check(rule, fi, "%s builds fresh objects" % fi.short, not st,
+                  "%s keeps state between calls (%s): what was computed for "
+                  "one file (a header already shrunk to a band, a pixel grid "
+                  "of another image's size) is handed out again for the "
+                  "next" % (fi.short, "; ".join(d for _, d in st[:3])),
+                  node=st[0][0] if st else fi.node)
+    ctx.floor(rule, n, 4, "functions of fits_tools")
